@@ -23,7 +23,7 @@ RULE = ('tier 1: for each program (3-8 operations covering every mutating method
         'random instants into a 2-thread child. evaluations = kill runs judged; distinct_nontrivial = distinct '
         '(program, kill gate) pairs + distinct (syscall, n) kills')
 DISTINCT = ('kill_points', 'syscall_kills', 'random_kills')
-REQUIRED = ('gate_kills_judged', 'kills_during_open', 'kills_during_first_write', 'programs_wal', 'programs_rollback_journal', 'blocked_commit_runs_with_failed_commit', 'size_evictions_seen_in_dry_runs', 'programs_fully_enumerated', 'kills_inside_block', 'kills_at_file_ops',
+REQUIRED = ('kills_beside_a_waiting_writer', 'gate_kills_judged', 'kills_during_open', 'kills_during_first_write', 'programs_wal', 'programs_rollback_journal', 'blocked_commit_runs_with_failed_commit', 'size_evictions_seen_in_dry_runs', 'programs_fully_enumerated', 'kills_inside_block', 'kills_at_file_ops',
             'kills_at_sql_gates', 'debris_seen_unknown_files_or_dirs', 'syscall_kills_judged', 'random_kills_judged')
 ASSUMPTIONS = ('SIGKILL is process death, not power loss (page cache survives); durability against power failure is not '
                'examined', 'sequential semantics of each operation are taken from a dry run of the same program '
@@ -665,6 +665,111 @@ def blocked_commit_tier(dc, sc, res, rng, label):
 SYSCALLS = ['pwrite64', 'fdatasync', 'fsync', 'ftruncate', 'unlink', 'rmdir', 'mkdir', 'rename', 'openat', 'pwritev']
 
 
+def waiting_writer_tier(dc, sc, res, rng, label):
+    """A process is killed inside a transaction while another process is waiting for the write lock with a write of its
+    own (its value file is already written, its BEGIN has failed at least once).  The killed transaction leaves
+    nothing but debris; the waiting write goes through once the lock is gone and is complete afterwards."""
+    import signal
+    import time as _t
+    journal = rng.choice(['wal', 'wal'] + JOURNALS)
+    d = sc.new('ww')
+    init = dc.Cache(d, **dict(SETTINGS, **common.journal_kw(journal)))
+    init.set('old', 'O' * 300)
+    init.close()
+    inside, done, ready = d + '.inside', d + '.done', d + '.ready'
+    how = rng.choice(['set', 'setitem', 'add', 'push', 'replace'])
+    payload = ('w%d;' % rng.randrange(1000)) * 80
+
+    def holder():
+        cache = dc.Cache(d)
+        with cache.transact():
+            cache.set('doomed', 'D' * 300)
+            cache.set('old', 'never committed')
+            open(inside, 'w').close()
+            _t.sleep(30)
+
+    def waiter():
+        cache = dc.Cache(d, timeout=0.03)        # (opened before the other process takes the lock: opening writes settings)
+        cache.get('old')
+        open(ready, 'w').close()
+        t_end = _t.monotonic() + 20
+        while not os.path.exists(inside) and _t.monotonic() < t_end:
+            _t.sleep(0.002)
+        if how == 'set':
+            ok = cache.set('w', payload, retry=True)
+        elif how == 'setitem':
+            cache['w'] = payload
+            ok = True
+        elif how == 'add':
+            ok = cache.add('w', payload, retry=True)
+        elif how == 'replace':
+            ok = cache.set('old', payload, retry=True)
+        else:
+            ok = cache.push(payload, prefix='w', retry=True) is not None
+        with open(done, 'w') as f:
+            f.write(repr(ok))
+    pids = []
+    try:
+        wpid = os.fork()
+        if wpid == 0:
+            code = 3
+            try:
+                waiter()
+                code = 0
+            finally:
+                os._exit(code)
+        pids.append(wpid)
+        t_end = _t.monotonic() + 20
+        while not os.path.exists(ready) and _t.monotonic() < t_end:
+            _t.sleep(0.002)
+        hpid = os.fork()
+        if hpid == 0:
+            try:
+                holder()
+            finally:
+                os._exit(3)
+        pids.append(hpid)
+        t_end = _t.monotonic() + 20
+        while not os.path.exists(inside) and _t.monotonic() < t_end:
+            _t.sleep(0.002)
+        _t.sleep(0.15 + 0.2 * rng.random())          # the waiter writes its file and fails a few BEGINs meanwhile
+        os.kill(hpid, signal.SIGKILL)
+        os.waitpid(hpid, 0)
+        _, status = os.waitpid(wpid, 0)
+        pids = []
+        wit = {'label': label, 'journal_mode': journal, 'waiting_call': how}
+        res.count('evaluations')
+        res.count('kills_beside_a_waiting_writer')
+        if status != 0 or not os.path.exists(done):
+            res.violation('the write that waited for the lock of a killed process did not complete (status %r)' % (status,), wit)
+            return
+        fresh = dc.Cache(d)
+        try:
+            got = fresh.get('old' if how == 'replace' else 'w', 'MISSING') if how != 'push' else fresh.pull(prefix='w')[1]
+            doomed = fresh.get('doomed', 'MISSING')
+            old = fresh.get('old', 'MISSING')
+            if got != payload or doomed != 'MISSING' or (how != 'replace' and old != 'O' * 300):
+                res.violation('after a kill beside a waiting %s: the waiting write reads %r..., the killed transaction\'s key reads '
+                              '%r, the key it had rewritten reads %r...' % (how, str(got)[:16], doomed, str(old)[:16]), wit)
+                return
+            bad = [w for w in observe.check_warnings(fresh) if 'file not found' in w or 'Settings' in w]
+            if bad:
+                res.violation('check() after a kill beside a waiting %s reports more than debris: %r' % (how, bad[:3]), wit)
+        finally:
+            fresh.close()
+    finally:
+        for pid in pids:
+            try:
+                os.kill(pid, signal.SIGKILL)
+                os.waitpid(pid, 0)
+            except OSError:
+                pass
+        for f in (inside, done, ready):
+            if os.path.exists(f):
+                os.unlink(f)
+        sc.drop(d)
+
+
 def strace_available():
     import shutil as _sh
     return _sh.which('strace') is not None
@@ -888,6 +993,9 @@ def run_shard(tier, seed, shard, nshards, res):
         for i in range(3 if tier == 'quick' else 30):
             rng = common.rng_for(seed, 'c07b', shard, i)
             blocked_commit_tier(dc, sc, res, rng, 'c07 blocked commit seed=%d shard=%d i=%d' % (seed, shard, i))
+        for i in range(3 if tier == 'quick' else 30):
+            rng = common.rng_for(seed, 'c07w', shard, i)
+            waiting_writer_tier(dc, sc, res, rng, 'c07 waiting writer seed=%d shard=%d i=%d' % (seed, shard, i))
         # tier 2: kills inside SQLite via strace syscall injection
         probe.reset()
         if strace_available():
